@@ -22,6 +22,7 @@ VERIF = os.path.dirname(os.path.abspath(__file__))
 REPO = os.environ.get("VERIF_REPO", "/repo")
 
 EXIT_OK, EXIT_VIOLATION, EXIT_ERROR = 0, 1, 3
+SLICE_S = float(os.environ.get("VERIF_SLICE_S", "12"))
 
 
 class Instance:
@@ -207,6 +208,11 @@ def explore_task(pid, tier, idx, prefix, seed):
                 work.append(q)
         if res["paths"] + res["aborted"] > inst.max_paths:
             res["error"] = "path budget exceeded (inconclusive)"
+            break
+        if len(work) > 1 and time.time() - t0 > SLICE_S:
+            # dynamic load balancing: after a time slice hand the unexplored sub-trees back to the scheduler
+            res["new_tasks"].extend(work)
+            work = []
             break
         if time.time() > deadline and work:
             res["error"] = "instance time budget of %ds exceeded with %d branches unexplored (inconclusive)" % (inst.timeout, len(work))
